@@ -404,6 +404,15 @@ func randOpts(g *G) *neat.Options {
 	if g.chance(0.5) {
 		o.GenCompatMethod = neat.GenomeCompatibilityMethodLinear
 	}
+	// documented ranges include their end points: now and then a probability is exactly 0 or exactly 1
+	for _, pp := range []*float64{&o.TraitParamMutProb, &o.MutateOnlyProb, &o.MutateRandomTraitProb, &o.MutateLinkTraitProb,
+		&o.MutateNodeTraitProb, &o.MutateLinkWeightsProb, &o.MutateToggleEnableProb, &o.MutateGeneReenableProb, &o.MutateAddNodeProb,
+		&o.MutateAddLinkProb, &o.MutateConnectSensors, &o.InterspeciesMateRate, &o.MateMultipointProb, &o.MateMultipointAvgProb,
+		&o.MateSinglepointProb, &o.MateOnlyProb, &o.RecurOnlyProb} {
+		if g.chance(0.05) {
+			*pp = float64(g.intn(2))
+		}
+	}
 	if g.chance(0.5) {
 		// several activators with a roulette choice
 		k := 2 + g.intn(3)
